@@ -28,7 +28,7 @@ UNIT = {
          "wrap_pre": "impl ParallelHeapIter<'_> {\n", "wrap_post": "}\n"},
         # R3: Iterator::next emitted as an inherent method
         {"fn": "next", "impl": r"impl Iterator for ParallelHeapIter < '_ >", "file": F_HI, "emit_name": "ParallelHeapIter_next",
-         "rewrites": ["strip_head", "name_return",
+         "rewrites": ["strip_head", "name_return", ("name_for_iter", "it"),
             ("replace", "use crate::offset_table::F64Offset;", "", "R2"),
             ("replace", "Option<Self::Item>", "Option<TermPair>", "R3"),
             ("replace", "Number::try_from((v1, &self.arena.f64_tbl)).unwrap()", "number_of_cell(v1, self.arena)", "R10"),
